@@ -161,6 +161,16 @@ def inject_fault(ws: typing.Any, fault: typing.Any) -> typing.Tuple[typing.Any, 
     if kind == "missing-name":
         add_line(c, "@assert %s.Nope.1.0.ID == 0" % ws["roots"][carrier["root"]]["name"])
         return ws, {"carriers": {c}, "kind": kind}
+    if kind == "missing-relative-namesake":
+        # a reference without namespace to a short name that exists only in *other* namespaces: unresolvable
+        here = (carrier["root"], tuple(carrier["ns"]))
+        cands = [j for j, x in enumerate(defs) if (x["root"], tuple(x["ns"])) != here
+                 and not any((y["root"], tuple(y["ns"])) == here and y["short"] == x["short"] and y["version"] == x["version"] for y in defs)]
+        if not cands:
+            return ws, None
+        j = cands[fault["other"] % len(cands)]
+        add_line(c, "@assert %s.%d.%d.ID == %d" % (defs[j]["short"], defs[j]["version"][0], defs[j]["version"][1], j))
+        return ws, {"carriers": {c}, "kind": kind, "namesake": j}
     if kind == "missing-version":
         j = fault["other"] % n
         t = defs[j]
@@ -392,7 +402,7 @@ def parts(ctx: Ctx) -> typing.List[Part]:
     resolve_cases = st.fixed_dictionaries({"ws": ws, "targets": st.lists(st.integers(0, 30), min_size=1, max_size=4)})
     fault = st.fixed_dictionaries(
         {
-            "kind": st.sampled_from(["missing-name", "missing-version", "self", "wrong-case", "cycle", "cycle", "duplicate-in-second-root"]),
+            "kind": st.sampled_from(["missing-name", "missing-version", "missing-relative-namesake", "self", "wrong-case", "cycle", "cycle", "duplicate-in-second-root"]),
             "carrier": st.integers(0, 30),
             "other": st.integers(0, 30),
         }
